@@ -152,7 +152,8 @@ def build(repo, variant='resp'):
                 &&& m1.header.ver_type_tkl == m0.header.ver_type_tkl &&& m1.header.message_id == m0.header.message_id &&& m1.token@ == m0.token@
                 &&& m1.header.code == MessageClass::Response(error.code->0)
                 &&& m1.payload@ == utf8_of(error.message)
-                &&& opts_view(m1.options) == opts_view(m0.options).insert(12, seq![uint_be_min(0)])
+                // (which content format is set, if any, is the implementation's choice; every other option stays)
+                &&& opts_view(m1.options).remove(12) =~= opts_view(m0.options).remove(12)
             })''', props=['C07'])
     g.contract((RQ, 'set_observe_flag'), '''        ensures opts_view(final(self).message.options) == opts_view(old(self).message.options).insert(6, seq![uint_be_min(usize_of_observe(flag) as nat)]),
             same_but_options(final(self).message, old(self).message), final(self).response == old(self).response, final(self).source == old(self).source''', props=['C19'])
